@@ -144,6 +144,15 @@ pub fn b(x: bool) -> &'static str {
 }
 
 /// zero-wire element sequences: cap the count the implementation is asked to honour
+/// a Decode impl that applies a (non-binding) memory limit to the input it is handed
+pub struct MemOver<T>(pub T);
+impl<T: parity_scale_codec::DecodeWithMemTracking> Decode for MemOver<T> {
+	fn decode<I: parity_scale_codec::Input>(input: &mut I) -> Result<Self, parity_scale_codec::Error> {
+		use parity_scale_codec::DecodeWithMemLimit;
+		T::decode_with_mem_limit(input, usize::MAX).map(MemOver)
+	}
+}
+
 pub fn safe_input<T: Reg>(inp: &[u8]) -> bool {
 	if !T::zst_seq() {
 		return true;
@@ -436,7 +445,9 @@ pub fn run_type<T: Reg>(cx: &mut Cx, name: &str) {
 					let mut s = &enc[..];
 					if let Ok(_) = <parity_scale_codec::Compact<u32>>::decode(&mut s) {
 						let body = s.to_vec();
-						for c in [&[0x03u8, 0xff, 0xff, 0xff, 0xff][..], &[0xfe, 0xff, 0xff, 0xff], &[0x03, 0x00, 0x00, 0x00, 0x08], &[0x02, 0x00, 0x40, 0x00]] {
+						// maximal, near-maximal, large and moderate claimed counts (a moderate count times a
+						// large element is as hostile as a large count)
+						for c in [&[0x03u8, 0xff, 0xff, 0xff, 0xff][..], &[0xfe, 0xff, 0xff, 0xff], &[0x03, 0x00, 0x00, 0x00, 0x08], &[0x02, 0x00, 0x40, 0x00], &[0x02, 0x00, 0x01, 0x00], &[0xfd, 0xff], &[0xa1, 0x0f]] {
 							let mut h = c.to_vec();
 							h.extend_from_slice(&body);
 							all.push(h);
@@ -637,6 +648,21 @@ fn oracles_on_input<T: Reg>(cx: &mut Cx, name: &str, inp: &[u8], r: &DRes<T>) {
 					_ => false,
 				};
 				cx.oracle.check(ok, "input-dependence:wrapper-stack", || format!("{}\tlayers={:?}", rp(), layers));
+			}
+			// the other nesting order (memory tracker on top of the depth limiter), reachable when a
+			// Decode impl applies its own memory limit to the input it is handed
+			{
+				use parity_scale_codec::DecodeLimit;
+				let r = catch_unwind(AssertUnwindSafe(|| {
+					let mut s = inp;
+					<MemOver<T>>::decode_with_depth_limit(u32::MAX - 1, &mut s).ok().map(|v| (v.0, inp.len() - s.len()))
+				}));
+				let ok = match (&base, &r) {
+					(DRes::Ok(v, c), Ok(Some((w, d)))) => v.same(w) && c == d,
+					(DRes::Err, Ok(None)) => true,
+					_ => false,
+				};
+				cx.oracle.check(ok, "input-dependence:wrapper-stack", || format!("{}\tlayers=mem-limit(max) over depth-limit(max-1)", rp()));
 			}
 		},
 		Mode::C14 => {
